@@ -13,6 +13,7 @@ def SigTable.crypto (t : SigTable) : Crypto :=
 
 structure DidD where
   st : Did.State := []
+  saved : Option Did.State := none   -- the state at `did.begin` (a branch that will be discarded)
 
 def parseOptList (s : String) : Option (Option (List Bytes)) :=
   if s = "^" then some none else (parseList s).map some
@@ -81,10 +82,12 @@ def didParseMsg : List String → Option Did.Msg
 
 def didStep (tbl : AddrTable) (sigs : SigTable) (d : DidD) : List String → Option (DidD × String)
   | ["reset"] => some ({}, "-")
+  | ["did.begin"] => some ({ d with saved := some d.st }, "-")
+  | ["did.abort"] => some ({ d with st := d.saved.getD d.st, saved := none }, "-")
   | "did.msg" :: rest => do
       let m ← didParseMsg rest
       match deliver tbl.dec sigs.crypto d.st m with
-      | .ok s' => pure ({ st := s' }, "ok")
+      | .ok s' => pure ({ d with st := s' }, "ok")
       | .err c => pure (d, errStr c)
       | .panic _ => pure (d, "panic")
   | ["did.q", did] => do
